@@ -89,7 +89,7 @@ def run(ctx, prop):
                      "-trace", trace, "-out", out])
     absorb(out)
     res = tlc(ctx, "txtar", "Trace_Txtar.tla", "Trace_Txtar.cfg", files=[trace], workers=NCPU,
-              timeout=3000, extra=["-continue"], expect_violation=True)
+              timeout=3000,  expect_violation=True)
     ctx.tlc_states += res.distinct
     ctx.tlc_transitions += max(res.generated - 1, 0)
     if res.distinct != nrand:
@@ -110,8 +110,8 @@ def run(ctx, prop):
                                    what="TLC rejects the record of the real %s on %r (%s)" % (
                                        "Parse" if prop == "C03" else "NeedsQuote", text, ",".join(sorted(invs))),
                                    input=dict(text=text, bytes=rec["input"]), detail=rec))
-    elif not res.ok:
-        raise NoVerdict("trace validation failed without naming a record:\n%s" % res.violation)
+    if not res.ok:
+        raise NoVerdict("trace validation did not complete:\n%s" % res.violation)
 
     if counters.get("spec_vs_xtools_disagreements"):
         raise NoVerdict("specification disagrees with x/tools on %d CR-free inputs: spec bug"
